@@ -138,7 +138,8 @@ func (rb *Rebalancer) ServeHTTP(w http.ResponseWriter, req *http.Request) {
 		}
 
 		if present {
-			newReq.URL = cookieURL
+			// hand a copy downstream, cookieURL is the pool's own object
+			newReq.URL = utils.CopyURL(cookieURL)
 			stuck = true
 		}
 	}
